@@ -17,6 +17,8 @@ from .seqlib import exc_name
 # --------------------------------------------------------------------------
 
 KINDS = ("Any", "Int", "Str", "RO", "Const", "Ev", "EvInt", "Dis", "Py")
+ALL_KINDS = KINDS + ("Deleg",)   # DelegatesTo('dg'): only in the delegate-shadow stream
+DELEGATE_ATTR = "dg"
 
 # tags of the traits every hierarchy inherits from the library classes
 TAG_PY_DEFAULT = 900      # HasTraits' '' prefix: Python()
@@ -64,7 +66,7 @@ def split_spec(spec):
         k, dv = body.split(":")
     else:
         k, dv = body, None
-    if k not in KINDS:
+    if k not in ALL_KINDS:
         raise ValueError("bad kind " + k)
     return k, dv, int(tag)
 
@@ -93,6 +95,9 @@ def mk_trait(spec):
         return Disallow(tag=tag)
     if k == "Py":
         return Python(tag=tag)
+    if k == "Deleg":
+        from traits.api import DelegatesTo
+        return DelegatesTo(DELEGATE_ATTR, tag=tag)
     raise ValueError(k)
 
 
@@ -274,6 +279,8 @@ def decl_of_spec(spec):
         return Decl("disallow", None, None, tag)
     if k == "Py":
         return Decl("python", None, None, tag)
+    if k == "Deleg":
+        return Decl("delegate", None, None, tag)
     raise ValueError(k)
 
 
@@ -433,7 +440,7 @@ WILD_ATTRS = ["x_", "xy_", "xyx_", "y_", "_", "__", "___", "a_", "ab_", "abc_", 
 
 VALUES = ["i0", "i1", "i2", "i7", "sa", "sab", "s", "n", "u"]
 DEFAULTS = {"Any": [None, "i3", "sd", "n"], "Int": [None, "i5", "i0"], "Str": [None, "sd"],
-            "RO": [None, None, "i7", "sr", "u"], "Const": ["i9", "sc", "n"], "Ev": [None], "EvInt": [None],
+            "RO": [None, None, "i7", "sr", "u", "n", "i0", "s"], "Const": ["i9", "sc", "n"], "Ev": [None], "EvInt": [None],
             "Dis": [None], "Py": [None]}
 
 
@@ -454,6 +461,11 @@ def rand_hierarchy(rng, tagbase=1, levels=None, prefix="C"):
         k = rng.choice([0, 1, 1, 2, 2, 3, 4])
         pool = rng.sample(WILD_ATTRS, min(len(WILD_ATTRS), 3)) + rng.sample(EXACT_ATTRS, 2)
         chosen = rng.sample(pool, min(k, len(pool)))
+        if lv > 0 and attrs and rng.random() < 0.5:
+            # a subclass re-declaring an exact trait / a wildcard of an ancestor
+            redo = rng.choice(attrs)
+            if redo not in chosen:
+                chosen.append(redo)
         decls = []
         for a in chosen:
             decls.append("%s=%s" % (a, rand_spec(rng, tag)))
@@ -520,7 +532,12 @@ def random_history(rng, late_subclass=False):
             base = rng.choice(classes)
             k = rng.choice([1, 2])
             decls = []
-            for a in rng.sample(WILD_ATTRS + EXACT_ATTRS, k):
+            picked = rng.sample(WILD_ATTRS + EXACT_ATTRS, k)
+            target = rng.choice(names)
+            if rng.random() < 0.6 and target and all(ch in "abcdefghijklmnopqrstuvwxyz_" for ch in target):
+                # a wildcard (or, without the '_', an exact trait) made for a name the base may have resolved
+                picked[0] = target[:rng.randint(1, len(target))] + rng.choice(["_", "_", ""])
+            for a in dict.fromkeys(picked):
                 decls.append("%s=%s" % (a, rand_spec(rng, tag)))
                 tag += 1
                 attrs.append(a)
@@ -532,6 +549,73 @@ def random_history(rng, late_subclass=False):
                 names.append(rand_name(rng, attrs))
         op, tag = rand_access(rng, rng.choice(objs), rng.choice(names), tag)
         ops.append(op)
+    return "res|" + ";".join(ops)
+
+
+def mi_history(rng):
+    """Two-base classes: two independent chains, or a diamond (valid C3 orders only)."""
+    tag = 1
+
+    def body(k):
+        nonlocal tag
+        decls = []
+        for a in rng.sample(["x_", "xy_", "_", "__", "q_", "x", "xy", "q", "_x"], k):
+            decls.append("%s=%s" % (a, rand_spec(rng, tag)))
+            tag += 1
+        return ",".join(decls) or "-"
+    ops = []
+    if rng.random() < 0.5:
+        r1, r2 = rng.choice(["H", "S", "P"]), rng.choice(["H", "S", "P"])
+        ops += ["cls A %s %s" % (r1, body(rng.choice([0, 1, 2]))), "cls B %s %s" % (r2, body(rng.choice([0, 1, 2])))]
+        bases = rng.choice(["A,B", "B,A"])
+    else:
+        r = rng.choice(["H", "H", "S", "P"])
+        ops += ["cls A %s %s" % (r, body(rng.choice([1, 2]))), "cls B A %s" % body(rng.choice([0, 1, 2])),
+                "cls C A %s" % body(rng.choice([0, 1, 2]))]
+        bases = rng.choice(["B,C", "C,B"])
+    ops += ["cls D %s %s" % (bases, body(rng.choice([0, 0, 1]))), "new d D"]
+    names = ["x", "xy", "xq", "xyq", "q", "qq", "_x", "_xq", "foo", "_foo", "y"]
+    t = 80
+    for _ in range(rng.randint(1, 6)):
+        op, t = rand_access(rng, "d", rng.choice(names), t)
+        ops.append(op)
+    return "res|" + ";".join(ops)
+
+
+def deleg_history(rng):
+    """The trailing-underscore branch of __prefix_trait__: `v_` shadows a delegate
+    trait `v` (class-level or added to one instance).  The delegation target
+    `dg` is an Any trait left at None, so reads end in AttributeError and writes
+    in DelegationError (a TraitError); only the *resolution* is of interest."""
+    root = rng.choice(["H", "H", "S", "P"])
+    extra = rng.choice(["", ",v__=Int@3", ",_=Str@3", ",vq_=Dis@3"])
+    ops = ["cls A %s %s=Any@1,v=Deleg@2%s" % (root, DELEGATE_ATTR, extra)]
+    cn = "A"
+    if rng.random() < 0.4:
+        ops.append("cls B A %s" % rng.choice(["-", "v_=Int@4", "w_=Str@4"]))
+        cn = "B"
+    ops += ["new a %s" % cn, "new b %s" % cn]
+    names = ["v", "v_", "v__", "vq", "w", "w_", DELEGATE_ATTR, DELEGATE_ATTR + "_", "x_"]
+    tag = 10
+    for _ in range(rng.randint(2, 8)):
+        o, n = rng.choice("ab"), rng.choice(names)
+        r = rng.random()
+        if r < 0.35 or n.rstrip("_") == DELEGATE_ATTR:
+            # `dg` is only read: assigning a non-HasTraits target makes the delegation listeners log
+            # exceptions, and they hook an instance clone of `dg` (notifier side, not modelled) that
+            # remove_trait / _trait(.., 1) would observe
+            ops.append("get %s .%s" % (o, n))
+        elif r < 0.6:
+            ops.append("set %s .%s %s" % (o, n, rng.choice(["i1", "sa", "n"])))
+        elif r < 0.68:
+            ops.append("del %s .%s" % (o, n))
+        elif r < 0.8:
+            ops.append("add %s .%s %s" % (o, rng.choice(["w", "v", "x"]), rng.choice(["Deleg@%d" % tag, "Int@%d" % tag])))
+            tag += 1
+        elif r < 0.9:
+            ops.append("rem %s .%s" % (o, n))
+        else:
+            ops.append("trt %s .%s %s" % (o, n, rng.choice(["0", "-1", "2"])))
     return "res|" + ";".join(ops)
 
 
@@ -551,7 +635,7 @@ FIXED_HIERARCHIES = [
     ["cls A H x_=Int@1,xy_=Str@2,xyx_=Any:i3@3"],
     ["cls A S x_=Int:i5@1,_x_=Str@2,y=RO@3"],
     ["cls A P x=Int@1,y_=EvInt@2,_y_=Const:i9@3"],
-    ["cls A0 H x_=Int@1", "cls A1 A0 xy_=Str@2,x=Const:sc@3", "cls A A1 xy=RO@4,_=Py@5"],
+    ["cls A0 H x_=Int@1", "cls A1 A0 xy_=Str@2,x=Const:sc@3", "cls A A1 xy=RO@4,_=Py@5,x=Int:i5@6"],
     ["cls A0 S y_=Ev@1,x=Const:i9@2", "cls A A0 _=Py@3,__=Dis@4"],
     ["cls A0 H _=RO@1", "cls A A0 __=Dis@2,x_=RO:i7@3"],
     ["cls A0 P x_=Dis@1,_y_=Int@2", "cls A1 A0 x__=Any@3", "cls A A1 x_=Str:sd@4,___=Int@5"],
